@@ -18,30 +18,20 @@ Import ListNotations.
 Local Open Scope N_scope.
 
 (* ---- (a) never a crash ---------------------------------------------------------------
-   For a WSGI environ (REMOTE_ADDR and wsgi.url_scheme present), any header
-   values and any configuration: an exception escapes the middleware exactly
-   on the decidable class crash_class -- trusted peer, headers parse, scheme
-   supported, and the selected client address is a non-empty string whose
-   address part is empty (Spec.bad_client) -- and then it is IndexError. *)
-Theorem C16_exceptions_exactly : forall c e, env_ok e ->
-  (crash_class c e = true -> middleware c e = Exn IndexError) /\
-  (crash_class c e = false -> forall x, middleware c e <> Exn x).
-Proof. exact total_exact. Qed.
-Print Assumptions C16_exceptions_exactly.
+   For a WSGI environ (REMOTE_ADDR and wsgi.url_scheme present, as
+   task.get_environment builds it), any header values and any configuration
+   (any peer, any count, any set of kinds, clearing on or off): the middleware
+   hands the request on (Ok) or answers 400 (Malformed); no exception escapes. *)
+Theorem C16_total : forall c e, env_ok e -> forall x, middleware c e <> Exn x.
+Proof. exact total. Qed.
+Print Assumptions C16_total.
 
-Theorem C16_total_partial : forall c e, env_ok e -> crash_class c e = false ->
-  forall x, middleware c e <> Exn x.
-Proof. exact total_partial. Qed.
-Print Assumptions C16_total_partial.
-
-(* the full statement (C16_total_statement: no exception for any request) is
-   false of the code as it is: finding F19 *)
-Theorem C16_total_refuted :
-  ~ C16_total_statement /\
-  env_ok f19_env /\ middleware f19_cfg f19_env = Exn IndexError /\      (* Forwarded: for=:80 *)
-  env_ok f19_env2 /\ middleware f19_cfg2 f19_env2 = Exn IndexError.     (* X-Forwarded-For: " " (quoted) *)
-Proof. exact (conj total_refuted total_refuted_witnesses). Qed.
-Print Assumptions C16_total_refuted.
+(* the two inputs that used to raise IndexError (F19, repaired by 12a41a9) are 400s *)
+Theorem C16_former_crashes_are_400 :
+  env_ok f19_env /\ middleware f19_cfg f19_env = Malformed h_fwd /\      (* Forwarded: for=:80 *)
+  env_ok f19_env2 /\ middleware f19_cfg2 f19_env2 = Malformed h_xff.     (* X-Forwarded-For: " " (quoted) *)
+Proof. exact former_crashes_are_400. Qed.
+Print Assumptions C16_former_crashes_are_400.
 
 (* ---- how a successful run is composed ------------------------------------------------------ *)
 Theorem C16_decompose : forall c e o, middleware c e = Ok o ->
@@ -145,15 +135,27 @@ Print Assumptions C16_kinds.
 (* ---- (e) the 400 categories -----------------------------------------------------------------------
    bad quoting (an element / value that begins or ends with DQUOTE and is not
    an RFC 9110 quoted-string), several values where one is required, a
-   forwarded-pair without "=", padded token or value, and an unsupported
-   scheme, in any trusted header: MalformedProxyHeader (a 400). *)
+   forwarded-pair without "=", padded token or value (malformed_syntax, on the
+   raw trusted headers); an unsupported scheme, an empty host, an empty client
+   address (malformed_selection, on the selected values): MalformedProxyHeader,
+   i.e. a 400.  Conversely an accepted request has none of them. *)
 Theorem C16_400 : forall c e,
   on_trusted_path c e = true ->
   (malformed_syntax (tph_of c) e \/
-   exists s, parse_select e (trusted_proxy_count c) (tph_of c) = Ok s /\ cat_scheme (fproto s) = true) ->
+   has_key k_url_scheme e /\
+   exists s, parse_select e (trusted_proxy_count c) (tph_of c) = Ok s /\
+     (cat_scheme (fproto s) = true \/ empty_host (fhost s) = true \/
+      (exists cl, client s = Some cl /\ bad_client cl = true))) ->
   exists h, middleware c e = Malformed h.
 Proof. exact trusted_malformed. Qed.
 Print Assumptions C16_400.
+
+Theorem C16_accepted_is_wellformed : forall c e o,
+  on_trusted_path c e = true -> has_key k_url_scheme e -> middleware c e = Ok o ->
+  ~ malformed_syntax (tph_of c) e /\
+  forall s, parse_select e (trusted_proxy_count c) (tph_of c) = Ok s -> ~ malformed_selection s.
+Proof. exact accepted_wellformed. Qed.
+Print Assumptions C16_accepted_is_wellformed.
 
 (* undquote: a value is refused exactly when it begins or ends with DQUOTE
    without being an RFC 9110 quoted-string; the value of a quoted-string is its
@@ -168,11 +170,7 @@ Theorem C16_undquote : forall v,
 Proof. exact undquote_summary. Qed.
 Print Assumptions C16_undquote.
 
-(* the empty-host category of the property is NOT refused: finding F20
-   (X-Forwarded-Host: :80 is accepted with SERVER_NAME "") *)
-Theorem C16_400_empty_host_refuted :
-  ~ C16_empty_host_statement /\
-  exists o, middleware f20_cfg f20_env = Ok o /\ lookup k_server_name o = Some [] /\
-            lookup k_http_host o = Some [58; 56; 48].
-Proof. exact (conj empty_host_refuted empty_host_witness). Qed.
-Print Assumptions C16_400_empty_host_refuted.
+(* X-Forwarded-Host: :80 (F20, repaired by 11c18eb) is a 400 *)
+Theorem C16_empty_host_is_400 : middleware f20_cfg f20_env = Malformed h_xfh.
+Proof. exact empty_host_is_400. Qed.
+Print Assumptions C16_empty_host_is_400.
